@@ -215,6 +215,16 @@ func (x *Exec) loopEntry(s *State, b *ssa.BasicBlock, ord int) bool {
 			fr.loopHeads = m
 		}
 		fr.loopHeads[ord] = snap
+		names := make(map[string]Val, len(fr.names))
+		for k, v := range fr.names {
+			names[k] = v
+		}
+		hn := make(map[int]map[string]Val, len(fr.loopHeadNames)+1)
+		for k, v := range fr.loopHeadNames {
+			hn[k] = v
+		}
+		hn[ord] = names
+		fr.loopHeadNames = hn
 	}
 	snapHeap()
 	for i, cl := range invs {
@@ -934,6 +944,7 @@ func (x *Exec) next(s *State, in *ssa.Next) {
 		s.assume(Implies(ok, And(x.le(x.ilit(0), kv.T), x.lt(kv.T, l))))
 		if rg, isRange := in.Iter.(*ssa.Range); isRange {
 			key := x.rangeKey(rg)
+			x.assumed["range over a string: a round delivers the byte offset and the rune that starts there and advances by the width of its encoding (1..4 bytes; exactly 1, rune = byte, for a byte below 0x80)"] = true
 			p := x.heapSym(s, key, x.intSort())
 			s.assume(And(x.le(x.ilit(0), p), x.le(p, l)))
 			s.assume(mk(SBool, "=", ok, x.lt(p, l)))
